@@ -454,11 +454,13 @@ def macro_half(rep):
             m = tyres.machine(ctx, r)
             try:
                 inl = list(m.call(f'<{ty} as TS>::inline', []).cs)
+                used = list(r.direct)
                 r.log.clear()
+                r.direct.clear()
                 m.call(f'<{ty} as TS>::visit_dependencies::<impl TypeVisitor>', [ValRef(('visitor',))])
             except Panic as e:
                 return ('panic', str(e), None)
-            return ('ok', inl, list(r.log))
+            return ('ok', inl, (list(r.log), used, list(r.direct)))
         try:
             res = ex.run(h)
         except Unsupported as e:
@@ -467,6 +469,9 @@ def macro_half(rep):
         rep.absorb(dict(paths=ex.paths, nontrivial=ex.paths, queries=ex.queries, solver_s=ex.solver_s))
         for pc, (k, inl, log) in res:
             ob += 1
+            used = reported = []
+            if k != 'panic':
+                log, used, reported = log
             if k == 'panic':
                 rep.violations.append({'what': f'{item["src"]}: inline()/visit_dependencies panics: {inl}', 'witness': {'item': name}, 'key': f'mh/{name}/panic'})
                 continue
@@ -490,6 +495,20 @@ def macro_half(rep):
                 why = f'inlined/flattened parameter(s) {sorted(inlined - fwd_deps)} do not contribute their dependencies'
             elif not fwd_deps <= inlined:
                 why = f'dependencies of {sorted(fwd_deps - inlined)} are forwarded although the parameter is not inlined'
+            else:
+                # the same rule for the corpus types a field refers to (`Inner<T>` by name and / or inlined, possibly both in one item)
+                corp = lambda t: re.match(r'^(\w+)', t) and re.match(r'^(\w+)', t).group(1) in TG['corpus'] and not t.startswith(name + '<') and t != name
+                n_used = {t for t, meth in used if meth == 'name' and corp(t)}
+                i_used = {t for t, meth in used if meth in ('inline', 'inline_flattened') and corp(t)}
+                vis = {tyres.strip_lifetimes(t) for op, t in log if op == 'visit'}
+                gen_calls = {t for t, meth in reported if meth == 'visit_generics'}
+                dep_calls = {t for t, meth in reported if meth == 'visit_dependencies'}
+                if not n_used <= vis:
+                    why = f'type(s) {sorted(n_used - vis)} are referred to by name but not reported as dependencies'
+                elif not n_used <= gen_calls:
+                    why = f'type(s) {sorted(n_used - gen_calls)} are referred to by name but their generic arguments are not reported'
+                elif not i_used <= dep_calls:
+                    why = f'inlined / flattened type(s) {sorted(i_used - dep_calls)} do not contribute their dependencies'
             if why:
                 rep.violations.append({'what': f'{item["src"]}: {why} [inline = {tyres.show_rope(inl)!r}, reported = {log}]',
                                        'witness': {'item': name, 'log': log}, 'key': f'mh/{name}'})
@@ -518,10 +537,71 @@ def main():
     except Unsupported as e:
         rep.inconclusive.append(f'macro half: {e}')
     try:
+        generic_instantiation_part(rep)
+    except Unsupported as e:
+        rep.inconclusive.append(f'generic instantiation part: {e}')
+    try:
         shared_file_imports(rep, quick)
     except Unsupported as e:
         rep.inconclusive.append(f'shared files: {e}')
     return rep.finish()
+
+
+def generic_instantiation_part(rep):
+    """A generic type's file is written from its dummy-parameter form (`T::WithoutGenerics`): whichever instantiation is exported, the
+    text -- imports included -- is the same and imports only what the generic declaration uses.  Universe: U0 = `P<User>` and U5 =
+    `P<Invoice>` (same name / declaration / file), both with WithoutGenerics = U4 = `P<Dummy>`; U1 = User, U2 = a type the body uses,
+    U3 = the non-exportable dummy, U6 = Invoice."""
+    ob = di = 0
+    for cfg in ('plain', 'esm'):
+        for place2 in ('B.ts', 'sub/B.ts', '../B.ts'):
+            ex = Explorer()
+
+            def h(ctx):
+                res = []
+                for root in (0, 5):
+                    m = machine(ctx, cfg, '/tmp', {})
+                    decl = o('type P<X> = { items: Array<X>, b: B, };')
+                    types = [UType(o('P'), decl, o('P.ts'), [1, 2], without_generics=4), UType(o('User'), o('type User = 0;'), o('User.ts')),
+                             UType(o('B'), o('type B = 0;'), o(place2)), UType(o('Dummy'), None, None),
+                             UType(o('P'), decl, o('P.ts'), [3, 2]), UType(o('P'), decl, o('P.ts'), [6, 2], without_generics=4),
+                             UType(o('Invoice'), o('type Invoice = 0;'), o('Invoice.ts'))]
+                    Universe(types).install(m)
+                    try:
+                        r = m.call(f'export_to_string::<U{root}>', [])
+                    except Panic as e:
+                        res.append(('panic', str(e)))
+                        continue
+                    if r.disc != 0:
+                        res.append(('err', None))
+                        continue
+                    text = r.fields[0].cs
+                    parsed = parse_file(m, text, G['note'])
+                    why = parsed if isinstance(parsed, str) else check_imports(m, '/tmp', './bindings/', o('P.ts'), [(o('B'), o(place2))], parsed[0], cfg == 'esm')
+                    res.append(('ok', show(text), why))
+                return res
+            try:
+                out_ = ex.run(h)
+            except Unsupported as e:
+                rep.inconclusive.append(f'generic instantiation part: {e}')
+                return
+            rep.absorb(dict(paths=ex.paths, nontrivial=ex.nontrivial, queries=ex.queries, solver_s=ex.solver_s))
+            for pc, res in out_:
+                ob += 1
+                why = None
+                for r in res:
+                    if r[0] != 'ok':
+                        why = f'export_to_string of an instantiation fails: {r}'
+                    elif r[2]:
+                        why = f'file of a generic type: {r[2]} [{r[1]!r}]'
+                if why is None and res[0][1] != res[1][1]:
+                    why = f'the file of a generic type depends on which instantiation is exported: {res[0][1]!r} vs {res[1][1]!r}'
+                if why:
+                    rep.violations.append({'what': why, 'witness': {'cfg': cfg, 'placement_of_B': place2}, 'key': 'geninst/' + why[:40]})
+                else:
+                    di += 1
+    rep.absorb(dict(obligations=ob, discharged=di))
+    rep.part('generic instantiations share one file written from the dummy-parameter form', cells=6)
 
 
 def shared_file_imports(rep, quick):
